@@ -232,6 +232,13 @@ def run(ctx):
                                 ctx.violation("loader/%s/filed-into-a-finished-block" % nm, "in state (%s) with a finished block in the open function, Op%s is put into that finished "
                                               "block (%s); the layout/bracketing rules demand %s" % (state, nm, real2, exp), {"cmd": "loader_step %d %d %d closed" % (int(fopen), int(bopen), w), "real": real2})
                                 continue
+                            if real2 and "error" not in real2 and (real2.get("answer") != exp[0] or bool(real2.get("f")) != exp[2] or bool(real2.get("b")) != exp[3]):
+                                ctx.ob("loader/%s/%s/%s" % (state, c, nm), False, "with a finished block in the open function: %s" % real2)
+                                ctx.violation("loader/%s/%s-after-a-finished-block" % (nm, "answers-%s-instead-of-%s" % (str(real2.get("answer")).split(":")[0], exp[0])),
+                                              "in state (%s) with a finished block in the open function, Op%s is answered %s (function open afterwards: %s, block open: %s); the "
+                                              "layout/bracketing rules demand %s" % (state, nm, real2.get("answer"), real2.get("f"), real2.get("b"), exp),
+                                              {"cmd": "loader_step %d %d %d closed" % (int(fopen), int(bopen), w), "real": real2})
+                                continue
                             ctx.ob("loader/%s/%s/%s" % (state, c, nm), None, "model deviates (%s) but the compiled crate conforms (%s)" % (beh, real))
                             continue
                         ctx.ob("loader/%s/%s/%s" % (state, c, nm), False, "expected %s, got %s" % (exp, realb))
